@@ -1,6 +1,7 @@
 SPECIFICATION Spec
 CONSTANTS
   StepRecovery = FALSE
+  FixAfterRemove = FALSE
   RCrashes = 0
   Order <- One
   MarkersFirst = TRUE
